@@ -150,9 +150,15 @@ package sev
 //@   sweep[C08]
 //@   alloc 512
 //@   ensures[C04] err == nil
+// C04 (digest chain): out receives SHA-384 of the 0x70-byte PAGE_INFO encoding of info (bb names that byte string).
+//@   ensures[C04] err == nil ==> exists(bb, BV, piTail(bb, info.length, info.pageType, info.imi, info.vmpl1Perms, info.vmpl2Perms, info.vmpl3Perms, info.gpa) && forall(i, Int, 0 <= i && i < 48 ==> bvat(bb, i) == info.digestCur[i] && bvat(bb, 48 + i) == info.contents[i] && bytesAt(out, i) == bvat(sha384(bb), i)), val(b))
 
+// C04 (one step of the SNP_LAUNCH_UPDATE digest chain): the new digest is SHA-384 of the PAGE_INFO whose DIGEST_CUR is
+// the old digest, whose CONTENTS is SHA-384 of the page, with LENGTH 0x70, the page type, IMI 0, VMPL permissions 0 and
+// the page's GPA. (The ghost trace below records the same step; this clause ties it to the code.)
 //@ func (*SnpMeasurement).Update4K
 //@   requires m != nil
+//@   ensures[C04] err == nil && exists(bb, BV, piTail(bb, 112, pageType % 256, 0, 0, 0, 0, gpa) && forall(i, Int, 0 <= i && i < 48 ==> bvat(bb, i) == old(m.Digest)[i] && bvat(bb, 48 + i) == bvat(sha384(val(data)), i) && m.Digest[i] == bvat(sha384(bb), i)))
 //@   assigns m.Digest
 //@   sweep[C08]
 //@   alloc 1024
@@ -162,8 +168,10 @@ package sev
 //@   ghostset ldN = ldN + 1
 //@   ensures[C04] err == nil
 
+// C04: as Update4K, with an all-zero CONTENTS.
 //@ func (*SnpMeasurement).ZeroContentUpdate4K
 //@   requires m != nil
+//@   ensures[C04] result == nil && exists(bb, BV, piTail(bb, 112, pageType % 256, 0, 0, 0, 0, gpa) && forall(i, Int, 0 <= i && i < 48 ==> bvat(bb, i) == old(m.Digest)[i] && bvat(bb, 48 + i) == 0 && m.Digest[i] == bvat(sha384(bb), i)))
 //@   assigns m.Digest
 //@   sweep[C08]
 //@   alloc 1024
